@@ -15,13 +15,16 @@ mod verif_c19_reader {
 
     //@include ../c16_sendwaker/counting_waker.rs
 
-    /// payload lengths are symbolic up to 4 GiB: a payload is a `Bytes` whose pointer is valid for 8 bytes and whose
-    /// LENGTH is symbolic.  None of the functions under contract reads payload bytes (they queue, clone and hand the
-    /// slice on; the packet model reads at most 8 bytes of a write of <= 8 bytes) -- if one did, CBMC's pointer
-    /// checks would fail the harness, so the trick cannot hide anything.
+    /// payload lengths are symbolic up to 4 GiB: a payload is a `Bytes` over a fresh (uninitialised) allocation of
+    /// symbolic size.  None of the functions under contract reads payload bytes (they queue, clone and hand the
+    /// slice on); "unchanged" is identity of (pointer, length).
     const DMAX: usize = 1 << 32;
-    static BIG: [u8; 8] = [0; 8];
-    static BIG2: [u8; 8] = [0; 8];
+    fn symbolic_len_slice(n: usize) -> &'static [u8] {
+        unsafe {
+            let p = std::alloc::alloc(std::alloc::Layout::from_size_align_unchecked(if n == 0 { 1 } else { n }, 1));
+            core::slice::from_raw_parts(p, n)
+        }
+    }
 
     // `tracing::error!` expands to a callsite registration + thread-local dispatcher lookup that crashes the Kani
     // compiler (intrinsics.rs:243).  The three entry points of the expansion are stubbed: the event is disabled.
@@ -58,13 +61,13 @@ mod verif_c19_reader {
         String::new()
     }
 
-    fn any_payload_in(buf: &'static [u8; 8]) -> (Bytes, usize) {
+    fn any_payload_in(_tag: u8) -> (Bytes, usize) {
         let n: usize = kani::any();
         kani::assume(n <= DMAX);
-        (Bytes::from_static(unsafe { core::mem::transmute::<(*const u8, usize), &'static [u8]>((buf.as_ptr(), n)) }), n)
+        (Bytes::from_static(symbolic_len_slice(n)), n)
     }
     fn any_payload() -> (Bytes, usize) {
-        any_payload_in(&BIG)
+        any_payload_in(1)
     }
 
     /// size on the wire of a varint (RFC 9000 section 16)
@@ -86,7 +89,7 @@ mod verif_c19_reader {
     fn any_incoming(a: &Task) -> (DatagramIncoming, usize, Option<(*const u8, usize)>, bool) {
         let local_max: usize = kani::any();
         let (q, first) = if kani::any() {
-            let (d, n) = any_payload_in(&BIG2);
+            let (d, n) = any_payload_in(2);
             let p = d.as_ptr();
             (VecDeque::from([d]), Some((p, n)))
         } else {
